@@ -1335,6 +1335,20 @@ func (v *VC) genTypeAssert(i *ssa.TypeAssert, g string) {
 	x := v.val(i.X)
 	n := "v_" + v.pfx + sanitize(i.Name())
 	v.names[i] = n
+	if tp, isTP := i.AssertedType.(*types.TypeParam); isTP {
+		// x.(T) with T a type parameter of a generic body: whether the dynamic type matches the
+		// (unknown) type argument is an uninterpreted function of the dynamic type
+		okN := v.freshName("taok")
+		v.emit("(define-fun %s () Bool %s)", okN, v.typeParamTest(tp, x))
+		if i.CommaOk {
+			v.emit("(define-fun %s_0 () Iface (ite %s %s inil))", n, okN, x)
+			v.emit("(define-fun %s_1 () Bool %s)", n, okN)
+		} else {
+			v.safety("type-assert", g, okN, i.Pos())
+			v.emit("(define-fun %s () Iface %s)", n, x)
+		}
+		return
+	}
 	if _, isIface := i.AssertedType.Underlying().(*types.Interface); isIface {
 		okN := v.freshName("taok")
 		v.features["implements"] = true
@@ -1356,6 +1370,10 @@ func (v *VC) genTypeAssert(i *ssa.TypeAssert, g string) {
 	tid := v.typeID(i.AssertedType)
 	okT := fmt.Sprintf("(= (iface-tid %s) %d)", x, tid)
 	srt := v.sortOf(i.AssertedType)
+	if srt == "Ptr" {
+		// a value of a pointer type is always boxed with the pointer constructor
+		okT = fmt.Sprintf("(and ((_ is iface-p) %s) (= (ip-type %s) %d))", x, x, tid)
+	}
 	var val string
 	switch srt {
 	case "Ptr":
@@ -1739,4 +1757,10 @@ func constCellValue(a *ssa.Alloc) ssa.Value {
 		return nil
 	}
 	return stored
+}
+
+// typeParamTest: "the dynamic type of interface value x matches type parameter tp".
+func (v *VC) typeParamTest(tp *types.TypeParam, x string) string {
+	v.uf("tpmatch", []string{"Int", "Int"}, "Bool")
+	return fmt.Sprintf("(and (not (= %s inil)) (tpmatch (iface-tid %s) %d))", x, x, v.typeID(tp))
 }
